@@ -1,6 +1,9 @@
 package zzbql
 
 import (
+	"fmt"
+
+	"github.com/google/badwolf/bql/lexer"
 	verif "github.com/google/badwolf/internal/zzverif"
 	"github.com/google/badwolf/bql/grammar"
 	"github.com/google/badwolf/bql/planner"
@@ -149,4 +152,64 @@ var c08Corpus = []string{
 func HarnessC08Corpus() {
 	q := c08Corpus[verif.Choice("q", len(c08Corpus))]
 	c08Execute(c08Store(verif.Choice("populated", 2) == 1), q, "C08/corpus")
+}
+
+var c08Prefixes = [][]lexer.TokenType{
+	// select ?x from ?x where { ?x "p"@[] ?x }
+	{lexer.ItemQuery, lexer.ItemBinding, lexer.ItemFrom, lexer.ItemBinding, lexer.ItemWhere, lexer.ItemLBracket, lexer.ItemBinding, lexer.ItemPredicate, lexer.ItemBinding, lexer.ItemRBracket},
+	// select ?x , count ( ?x ) as ?x from ?x where { ?x "p"@[] ?x }
+	{lexer.ItemQuery, lexer.ItemBinding, lexer.ItemComma, lexer.ItemCount, lexer.ItemLPar, lexer.ItemBinding, lexer.ItemRPar, lexer.ItemAs, lexer.ItemBinding, lexer.ItemFrom, lexer.ItemBinding, lexer.ItemWhere, lexer.ItemLBracket, lexer.ItemBinding, lexer.ItemPredicate, lexer.ItemBinding, lexer.ItemRBracket},
+	// select ?x from ?x where { ?x "p"@[] ?x   (the tail continues the pattern)
+	{lexer.ItemQuery, lexer.ItemBinding, lexer.ItemFrom, lexer.ItemBinding, lexer.ItemWhere, lexer.ItemLBracket, lexer.ItemBinding, lexer.ItemPredicate, lexer.ItemBinding},
+	// construct { ?x "p"@[] ?x } into ?x from ?x where { ?x "p"@[] ?x }
+	{lexer.ItemConstruct, lexer.ItemLBracket, lexer.ItemBinding, lexer.ItemPredicate, lexer.ItemBinding, lexer.ItemRBracket, lexer.ItemInto, lexer.ItemBinding, lexer.ItemFrom, lexer.ItemBinding, lexer.ItemWhere, lexer.ItemLBracket, lexer.ItemBinding, lexer.ItemPredicate, lexer.ItemBinding, lexer.ItemRBracket},
+	// construct { ?x "p"@[] ?x    (the tail continues the template)
+	{lexer.ItemConstruct, lexer.ItemLBracket, lexer.ItemBinding, lexer.ItemPredicate, lexer.ItemBinding},
+	// select ?x from ?x where { ?x "p"@[] ?x } having
+	{lexer.ItemQuery, lexer.ItemBinding, lexer.ItemFrom, lexer.ItemBinding, lexer.ItemWhere, lexer.ItemLBracket, lexer.ItemBinding, lexer.ItemPredicate, lexer.ItemBinding, lexer.ItemRBracket, lexer.ItemHaving},
+	// ... having ( ?x
+	{lexer.ItemQuery, lexer.ItemBinding, lexer.ItemFrom, lexer.ItemBinding, lexer.ItemWhere, lexer.ItemLBracket, lexer.ItemBinding, lexer.ItemPredicate, lexer.ItemBinding, lexer.ItemRBracket, lexer.ItemHaving, lexer.ItemLPar, lexer.ItemBinding},
+	// ... order by ?x
+	{lexer.ItemQuery, lexer.ItemBinding, lexer.ItemFrom, lexer.ItemBinding, lexer.ItemWhere, lexer.ItemLBracket, lexer.ItemBinding, lexer.ItemPredicate, lexer.ItemBinding, lexer.ItemRBracket, lexer.ItemOrder, lexer.ItemBy, lexer.ItemBinding},
+	// ... group by ?x
+	{lexer.ItemQuery, lexer.ItemBinding, lexer.ItemFrom, lexer.ItemBinding, lexer.ItemWhere, lexer.ItemLBracket, lexer.ItemBinding, lexer.ItemPredicate, lexer.ItemBinding, lexer.ItemRBracket, lexer.ItemGroup, lexer.ItemBy, lexer.ItemBinding},
+	// ... { ?x "p"@[] ?x . filter
+	{lexer.ItemQuery, lexer.ItemBinding, lexer.ItemFrom, lexer.ItemBinding, lexer.ItemWhere, lexer.ItemLBracket, lexer.ItemBinding, lexer.ItemPredicate, lexer.ItemBinding, lexer.ItemDot, lexer.ItemFilter},
+	// ... { ?x "p"@[] ?x . optional {
+	{lexer.ItemQuery, lexer.ItemBinding, lexer.ItemFrom, lexer.ItemBinding, lexer.ItemWhere, lexer.ItemLBracket, lexer.ItemBinding, lexer.ItemPredicate, lexer.ItemBinding, lexer.ItemDot, lexer.ItemOptional, lexer.ItemLBracket},
+}
+
+// C08 (stage 3'): a well-formed statement prefix followed by every token-type
+// sequence of length <= L the plain parser inspects (GROUP BY / ORDER BY /
+// HAVING / time bound / LIMIT tails, further clauses, construct templates),
+// through SemanticBQL with its hooks, planner.New and Execute.
+func HarnessC08Tail() {
+	L := verif.Param("L", 4)
+	pi := verif.Param("PREFIX", -1)
+	if pi < 0 {
+		pi = verif.Choice("prefix", len(c08Prefixes))
+	}
+	var toks []lexer.Token
+	for i, t := range c08Prefixes[pi] {
+		toks = append(toks, lexer.Token{Type: t, Text: fmt.Sprint(i)})
+	}
+	n := verif.Choice("len", L+1)
+	tail := symTokens(n)
+	for i := range tail {
+		tail[i].Text = fmt.Sprint(len(toks) + i)
+	}
+	toks = append(toks, tail...)
+	plain, err := grammar.NewParser(grammar.BQL())
+	verif.Assume(err == nil)
+	llk := grammar.NewLLkFromTokens(toks, 1)
+	perr := plain.Parse(llk, &semantic.Statement{})
+	seen := inspected(toks, llk, perr)
+	if perr != nil && len(seen) > 0 {
+		// the token the grammar rejects is never handed to a hook and no statement
+		// can end here (every statement ends in ';'): the text is cut before it, so
+		// that the pipeline fails at the same point on end of input
+		seen = seen[:len(seen)-1]
+	}
+	text := pinnedText(seen)
+	c08Execute(c08Store(verif.Choice("populated", 2) == 1), text, "C08/tail")
 }
